@@ -28,7 +28,7 @@ class Field:
         and return an updated x and y shift. If None (default), tilt = [].
 
     """
-    __slots__ = ('data', 'offset', 'tilt', 'pixelscale', 'extent')
+    __slots__ = ('data', 'offset', 'tilt', 'pixelscale')
 
     def __init__(self, data, pixelscale=None, offset=None, tilt=None):
         #: ndarray : Complex field data
@@ -52,8 +52,16 @@ class Field:
         # in :class:`~lentil.plane.TiltInterface`
         self.tilt = tilt if tilt else []
 
-        #: tuple of ints : Extent of ``data``
-        self.extent = lentil.extent.array_extent(self.shape, self.offset)
+    @property
+    def extent(self):
+        """
+        Extent of ``data`` at the current ``offset``
+
+        Returns
+        -------
+        tuple of ints
+        """
+        return lentil.extent.array_extent(self.shape, self.offset)
 
     @property
     def shape(self):
